@@ -181,6 +181,13 @@ func (P *Program) paramArgs(p *ssa.Parameter) []ssa.Value {
 	if fn == nil {
 		return nil
 	}
+	if w := P.visitorWalk(fn); w != nil {
+		// Visit method of the visitor handed to ast.Walk: the receiver is that visitor, the node comes from the walk
+		if len(fn.Params) > 0 && fn.Params[0] == p {
+			return []ssa.Value{w.Call.Args[0]}
+		}
+		return nil
+	}
 	if closureLike(fn) && len(P.Callers(fn)) == 0 {
 		return nil // callback / range-over-func body: parameters come from the library
 	}
@@ -590,6 +597,11 @@ func (P *Program) termDesc(v ssa.Value, deep bool) string {
 			if q == x {
 				idx = i
 			}
+		}
+		if w := P.visitorWalk(fn); w != nil && idx == 1 {
+			// the node parameter of a Visit method: the walk callback parameter of the walk that is given the visitor
+			// (named like the callback parameter of ast.Inspect: the same nodes, in the same order)
+			return fmt.Sprintf("cbparam0(go/ast.Inspect; %s)", P.descArgs([]ssa.Value{w.Call.Args[1]}, deep))
 		}
 		if closureLike(fn) {
 			// callback / range-over-func body parameter: describe by the call the closure is passed to
@@ -1240,20 +1252,29 @@ func isFullIndexLoopOver(idx, base ssa.Value) bool {
 	if b == base {
 		return true
 	}
-	// same memory location loaded twice (x.f read in the condition and in the body)
-	lb, ok1 := b.(*ssa.UnOp)
-	lx, ok2 := base.(*ssa.UnOp)
-	if ok1 && ok2 && lb.Op == token.MUL && lx.Op == token.MUL {
-		if lb.X == lx.X {
-			return true
-		}
-		fa1, okA := lb.X.(*ssa.FieldAddr)
-		fa2, okB := lx.X.(*ssa.FieldAddr)
-		if okA && okB && fa1.X == fa2.X && fa1.Field == fa2.Field {
-			return true
-		}
+	// same memory location loaded twice (x.f / x.f.g read in the condition and in the body)
+	return sameLoadedLoc(b, base, 0)
+}
+
+// sameLoadedLoc: a and b are the same value, or loads of the same field path of the same value.
+func sameLoadedLoc(a, b ssa.Value, depth int) bool {
+	if a == b {
+		return true
 	}
-	return false
+	if depth > 4 {
+		return false
+	}
+	la, ok1 := a.(*ssa.UnOp)
+	lb, ok2 := b.(*ssa.UnOp)
+	if !ok1 || !ok2 || la.Op != token.MUL || lb.Op != token.MUL {
+		return false
+	}
+	if la.X == lb.X {
+		return true
+	}
+	fa1, okA := la.X.(*ssa.FieldAddr)
+	fa2, okB := lb.X.(*ssa.FieldAddr)
+	return okA && okB && fa1.Field == fa2.Field && sameLoadedLoc(fa1.X, fa2.X, depth+1)
 }
 
 // throughParams follows a value backwards through parameters bound at exactly one call site, local cells with a
@@ -1293,4 +1314,47 @@ func (P *Program) throughParams(v ssa.Value) ssa.Value {
 		}
 	}
 	return v
+}
+
+// visitorWalk: fn is the Visit method of a type whose values are handed to ast.Walk at exactly one place in the
+// module: that call. (ast.Walk(v, root) calls v.Visit(n) for root and - while Visit returns a non-nil visitor - for
+// every node below it: what ast.Inspect does with a callback that returns true.)
+func (P *Program) visitorWalk(fn *ssa.Function) *ssa.Call {
+	if fn == nil || fn.Signature == nil || fn.Signature.Recv() == nil || fn.Name() != "Visit" || len(fn.Params) != 2 {
+		return nil
+	}
+	P.buildVisitorWalks()
+	if ws := P.visitorWalks[fn]; len(ws) == 1 {
+		return ws[0]
+	}
+	return nil
+}
+
+func (P *Program) buildVisitorWalks() {
+	if P.visitorWalks == nil {
+		P.visitorWalks = map[*ssa.Function][]*ssa.Call{}
+		for _, f := range P.ModFuncs {
+			allInstrs(f, func(_ *ssa.BasicBlock, ins ssa.Instruction) {
+				call, ok := ins.(*ssa.Call)
+				if !ok || call.Call.StaticCallee() == nil || FuncName(call.Call.StaticCallee()) != "go/ast.Walk" || len(call.Call.Args) != 2 {
+					return
+				}
+				v := call.Call.Args[0]
+				for {
+					if mi, isMI := v.(*ssa.MakeInterface); isMI {
+						v = mi.X
+						continue
+					}
+					if ci, isCI := v.(*ssa.ChangeInterface); isCI {
+						v = ci.X
+						continue
+					}
+					break
+				}
+				if m := P.SSA.LookupMethod(v.Type(), nil, "Visit"); m != nil && P.IsProductFunc(m) {
+					P.visitorWalks[m] = append(P.visitorWalks[m], call)
+				}
+			})
+		}
+	}
 }
